@@ -201,7 +201,7 @@ func (ex *exprTr) tr(e ast.Expr) Val {
 		case *types.Map:
 			name, sort, ms := vc.mapHeapName(t)
 			m := app("select", vc.heapGet(ex.st, name, sort), base.t)
-			k := vc.asTerm(idx)
+			k := vc.mapKeyTerm(ex.coerce(idx, t.Key()), t.Key())
 			return Val{t: ite(app("select", app(ms.present(), m), k), app("select", app(ms.vals(), m), k), vc.S.zero(t.Elem())), typ: rt}
 		case *types.Pointer:
 			at := t.Elem().Underlying().(*types.Array)
@@ -569,6 +569,15 @@ func (ex *exprTr) call(x *ast.CallExpr) Val {
 		return Val{t: vc.bytesOfSlice(ex.st, ex.tr(x.Args[0]).t), typ: rt}
 	case "verif_bytesOfStr":
 		return Val{t: vc.bytesOfString(ex.tr(x.Args[0]).t), typ: rt}
+	case "verif_built":
+		vc.bytesOn()
+		a := ex.tr(x.Args[0])
+		if !isStringsBuilder(a.typ) {
+			vc.fail("contract: built() needs a *strings.Builder")
+		}
+		return Val{t: app("select", vc.heapGet(ex.st, builderAccHeap, builderAccSort), vc.ptrTerm(a)), typ: rt}
+	case "verif_bsingle":
+		return Val{t: vc.bsingle(ex.tr(x.Args[0]).t), typ: rt}
 	case "verif_bcat", "verif_bxor", "verif_btake":
 		vc.bytesOn()
 		return Val{t: app("bytes."+name[7:], ex.tr(x.Args[0]).t, ex.tr(x.Args[1]).t), typ: rt}
@@ -616,7 +625,7 @@ func (ex *exprTr) call(x *ast.CallExpr) Val {
 		mt := base.typ.Underlying().(*types.Map)
 		name, sort, ms := vc.mapHeapName(mt)
 		m := app("select", vc.heapGet(ex.st, name, sort), base.t)
-		return Val{t: app("select", app(ms.present(), m), ex.coerce(idx, mt.Key())), typ: rt}
+		return Val{t: app("select", app(ms.present(), m), vc.mapKeyTerm(ex.coerce(idx, mt.Key()), mt.Key())), typ: rt}
 	case "verif_fresh":
 		// fresh(x): the array / object / map x refers to was allocated by this activation (after entry)
 		a := ex.tr(x.Args[0])
@@ -641,7 +650,7 @@ func (ex *exprTr) call(x *ast.CallExpr) Val {
 			vc.fail("contract: rangeseen() is only available in clauses of a loop that ranges over a map without inserting into it")
 		}
 		a := ex.tr(x.Args[0])
-		return Val{t: app("select", seen.t, ex.coerce(a, seen.typ)), typ: rt}
+		return Val{t: app("select", seen.t, vc.mapKeyTerm(ex.coerce(a, seen.typ), seen.typ)), typ: rt}
 	case "verif_sameArray":
 		a, b := ex.tr(x.Args[0]), ex.tr(x.Args[1])
 		return Val{t: eq(slRef(a.t), slRef(b.t)), typ: rt}
